@@ -16,9 +16,137 @@ import (
 
 var routeHooks vp.HookCounts
 
+// runRouteProc is the real-subprocess variant (gRPC broker without
+// multiplexing): the plugin side of every accept/dial is performed by the
+// scripted plugin on request; the launch may be a custom runner that sees the
+// socket directory under another path (address translation) and the
+// connection may use AutoMTLS.
+func runRouteProc(t *testing.T, c spec.Case, e Em, p spec.RouteCase) {
+	cfg := baseClientConfig()
+	cfg.AutoMTLS = p.TLS == "auto"
+	hostSetFor(cfg, "grpc")
+	l := prepare(c.ID, "", pluginCfgFor("grpc"), cfg, p.Proc)
+	defer l.hardKill()
+	cp, err := l.Client.Client()
+	if err != nil {
+		e.Note("pair-error", err.Error())
+		return
+	}
+	raw, err := cp.Dispense("kv")
+	if err != nil {
+		e.Note("pair-error", err.Error())
+		return
+	}
+	cli := raw.(*vp.GRPCCli)
+	var inflight, maxPend atomic.Int32
+	var mu sync.Mutex
+	var handles []*vp.AcceptHandle
+	item := func(idx int, it spec.RouteItem) {
+		id := it.ID
+		n := inflight.Add(1)
+		for {
+			m := maxPend.Load()
+			if n <= m || maxPend.CompareAndSwap(m, n) {
+				break
+			}
+		}
+		defer inflight.Add(-1)
+		nonceA, nonceD := vp.RandID(), vp.RandID()
+		gap := time.Duration(it.GapMs) * time.Millisecond
+		var wg sync.WaitGroup
+		accept := func() {
+			defer wg.Done()
+			o := spec.RouteObs{ID: id, Idx: idx, Role: "accept", Side: other(it.Dir), Nonce: nonceA}
+			e.Call(fmt.Sprintf("a%d", idx), "accept", o)
+			if it.Dir == "host" { // the plugin accepts
+				if _, err := cli.Do("grpc-accept", "id", id, "nonce", nonceA); err != nil {
+					o.Err = err.Error()
+				}
+			} else {
+				h := vp.GRPCAcceptServe(cli.Broker, id, nonceA, time.Duration(it.SlowMs)*time.Millisecond)
+				mu.Lock()
+				handles = append(handles, h)
+				mu.Unlock()
+			}
+			e.Ret(fmt.Sprintf("a%d", idx), "accept", o)
+		}
+		dial := func() {
+			defer wg.Done()
+			o := spec.RouteObs{ID: id, Idx: idx, Role: "dial", Side: it.Dir, Nonce: nonceD}
+			e.Call(fmt.Sprintf("d%d", idx), "dial", o)
+			t0 := time.Now()
+			if it.Dir == "host" {
+				r := vp.GRPCDialPing(cli.Broker, id, 60*time.Second, true)
+				o.Msg = r.Msg
+				if r.DialErr != "" {
+					o.Err = "dial: " + r.DialErr
+				} else if r.PingErr != "" {
+					o.Err = "first call: " + r.PingErr
+				}
+			} else {
+				m, err := cli.Do("grpc-dial", "id", id, "timeoutMs", 60000)
+				if err != nil {
+					o.Err = "plugin dial command: " + err.Error()
+				} else {
+					o.Msg = vp.Str(m, "msg")
+					if s := vp.Str(m, "dialErr"); s != "" {
+						o.Err = "dial: " + s
+					} else if s := vp.Str(m, "pingErr"); s != "" {
+						o.Err = "first call: " + s
+					}
+				}
+			}
+			o.Ms = time.Since(t0).Milliseconds()
+			e.Ret(fmt.Sprintf("d%d", idx), "dial", o)
+		}
+		wg.Add(2)
+		if it.AcceptFirst {
+			go accept()
+			time.Sleep(gap)
+			go dial()
+		} else {
+			go dial()
+			time.Sleep(gap)
+			go accept()
+		}
+		wg.Wait()
+	}
+	var end spec.RouteEnd
+	ok, _, dump := within(150*time.Second, func() {
+		var wg sync.WaitGroup
+		for i, it := range p.Items {
+			wg.Add(1)
+			go func(i int, it spec.RouteItem) { defer wg.Done(); item(i, it) }(i, it)
+		}
+		wg.Wait()
+		var h spec.RouteHealth
+		h.Idx, h.RepingOK = len(p.Items), true
+		h.PingErr = errStr(cp.Ping())
+		_, err := cli.Do("tag")
+		h.CallErr = errStr(err)
+		e.Obs("health", h)
+	})
+	end.Returned, end.Dump, end.MaxPend = ok, trunc(dump, 6000), int(maxPend.Load())
+	end.Hooks = routeHooks.Snapshot()
+	if l.Proc != nil {
+		end.P2HCalls, end.H2PCalls = int(l.Proc.P2HCalls.Load()), int(l.Proc.H2PCalls.Load())
+	}
+	mu.Lock()
+	for _, h := range handles {
+		h.Stop()
+	}
+	mu.Unlock()
+	within(30*time.Second, l.Client.Kill)
+	e.Obs("end", end)
+}
+
 func runRoute(t *testing.T, c spec.Case, e Em) {
 	var p spec.RouteCase
 	param(c, &p)
+	if p.Proc != "" {
+		runRouteProc(t, c, e, p)
+		return
+	}
 	var names []string
 	for i := 0; i < p.DispN; i++ {
 		names = append(names, fmt.Sprintf("p%d", i))
@@ -37,7 +165,7 @@ func runRoute(t *testing.T, c spec.Case, e Em) {
 	}
 	var conns []kept
 	listenerWant := map[string]string{} // accepting side + id -> answer of that listener's server (guarded by connsMu)
-	lastDial := map[string]time.Time{}   // accepting side + id -> when the last dial to that listener got its first answer
+	lastDial := map[string]time.Time{}  // accepting side + id -> when the last dial to that listener got its first answer
 	var handles []*vp.AcceptHandle
 	brokers := func(dialSide string) (dm, am *plugin.MuxBroker, dg, ag *plugin.GRPCBroker) {
 		if dialSide == "host" {
